@@ -323,10 +323,25 @@ func (sa *Safe) consumeLoop(fr *frame, h *ssa.BasicBlock, latches []*ssa.BasicBl
 				continue
 			}
 			callee := call.Call.StaticCallee()
-			if callee == nil || !consumingReads[callee.String()] {
+			if callee == nil {
 				continue
 			}
-			bufv := call.Call.Args[0]
+			var bufv ssa.Value
+			if consumingReads[callee.String()] {
+				bufv = call.Call.Args[0]
+			} else if callee.Pkg != nil && IsRepoPkg(callee.Pkg.Pkg) {
+				// a repository callee that consumes >= 1 octet from one of its reader arguments whenever it succeeds
+				for i, a := range call.Call.Args {
+					if isReaderType(a.Type()) && sa.consumesOnSuccess(callee, i, 0) {
+						bufv = a
+					}
+				}
+				if bufv == nil {
+					continue
+				}
+			} else {
+				continue
+			}
 			if mi, ok := bufv.(*ssa.MakeInterface); ok {
 				bufv = mi.X
 			}
@@ -452,4 +467,105 @@ func (sa *Safe) consumeLoop(fr *frame, h *ssa.BasicBlock, latches []*ssa.BasicBl
 		return true, ""
 	}
 	return false, "a cycle of the loop avoids every checked read"
+}
+
+func isReaderType(t types.Type) bool {
+	s := t.String()
+	return s == "*bytes.Buffer" || s == "*bytes.Reader"
+}
+
+// consumesOnSuccess: every nil-error return of fn is preceded (dominated) by a read of >= 1
+// octet from parameter pi whose failure makes fn return a non-nil error.
+func (sa *Safe) consumesOnSuccess(fn *ssa.Function, pi int, depth int) bool {
+	if fn.Blocks == nil || pi >= len(fn.Params) || depth > 4 {
+		return false
+	}
+	nres := fn.Signature.Results().Len()
+	if nres == 0 || fn.Signature.Results().At(nres-1).Type().String() != "error" {
+		return false
+	}
+	param := fn.Params[pi]
+	for _, b := range fn.Blocks {
+		for _, ins := range b.Instrs {
+			call, ok := ins.(*ssa.Call)
+			if !ok {
+				continue
+			}
+			callee := call.Call.StaticCallee()
+			if callee == nil {
+				continue
+			}
+			okRead := false
+			if consumingReads[callee.String()] {
+				a0 := call.Call.Args[0]
+				if mi, ok := a0.(*ssa.MakeInterface); ok {
+					a0 = mi.X
+				}
+				if a0 != ssa.Value(param) {
+					continue
+				}
+				okRead = true
+				if callee.String() == "encoding/binary.Read" {
+					d := call.Call.Args[2]
+					if mi, ok := d.(*ssa.MakeInterface); ok {
+						d = mi.X
+					}
+					pt, ok := d.Type().Underlying().(*types.Pointer)
+					if !ok || sa.w.sizeOf(pt.Elem()) < 1 {
+						okRead = false
+					}
+				}
+			} else if callee.Pkg != nil && IsRepoPkg(callee.Pkg.Pkg) {
+				for i, a := range call.Call.Args {
+					if a == ssa.Value(param) && sa.consumesOnSuccess(callee, i, depth+1) {
+						okRead = true
+					}
+				}
+			}
+			if !okRead {
+				continue
+			}
+			// failure arm returns a non-nil error
+			iff, ok := b.Instrs[len(b.Instrs)-1].(*ssa.If)
+			if !ok {
+				continue
+			}
+			cond, ok := iff.Cond.(*ssa.BinOp)
+			if !ok || (cond.Op != token.NEQ && cond.Op != token.EQL) {
+				continue
+			}
+			isErr := func(v ssa.Value) bool {
+				if v == ssa.Value(call) {
+					return true
+				}
+				ex, ok := v.(*ssa.Extract)
+				return ok && ex.Tuple == ssa.Value(call)
+			}
+			if !isErr(cond.X) && !isErr(cond.Y) {
+				continue
+			}
+			fail := b.Succs[0]
+			if cond.Op == token.EQL {
+				fail = b.Succs[1]
+			}
+			ret, ok := fail.Instrs[len(fail.Instrs)-1].(*ssa.Return)
+			if !ok {
+				continue
+			}
+			if c, isC := ret.Results[nres-1].(*ssa.Const); isC && c.Value == nil {
+				continue
+			}
+			// the read dominates every return
+			dom := true
+			for _, rb := range fn.Blocks {
+				if _, isRet := rb.Instrs[len(rb.Instrs)-1].(*ssa.Return); isRet && !b.Dominates(rb) {
+					dom = false
+				}
+			}
+			if dom {
+				return true
+			}
+		}
+	}
+	return false
 }
